@@ -117,6 +117,19 @@ def main() -> int:
     args = ap.parse_args()
     seed = int(os.environ.get("VERIF_SEED", "0") or 0)
     pid = args.property.upper()
+    # the analysis of one property takes seconds; a source shape that sends the path enumeration or the case splits off into a combinatorial
+    # blow-up ends as "analysis incomplete" (exit 2) instead of running on
+    import signal
+
+    budget = int(os.environ.get("YV_TIME_BUDGET", "240" if args.tier == "quick" else "1500"))
+
+    def _out_of_time(_sig, _frm):
+        print(f"ANALYSIS-ERROR: time budget of {budget}s exceeded for {pid}: no verdict (the analysis did not finish)")
+        sys.stdout.flush()
+        os._exit(2)
+
+    signal.signal(signal.SIGALRM, _out_of_time)
+    signal.alarm(budget)
     if args.replay:
         with open(args.replay, encoding="utf-8") as fh:
             data = json.load(fh)
